@@ -49,8 +49,22 @@
   The hypothesis on count errors is necessary: `RepeatCountError { found ≥ expected_min,
   expected_max: None }` (never built by the library, but its fields are public) panics in
   `expected_description` (`expect("get max item count")`) — `C01_count_report_panics`.
-  Still carried by the `nopanic` family and the panic checks run on every grammar-level case:
-  the lexer `Display`.
+  Lexer `Display` (the clause "formatting any reachable lexer state never panics"):
+  `C01_lexer_display_total`: for a source with offset zero over a well-formed text and a lexer whose
+  stored positions are canonical positions of that text under the source's metrics (`PosOK`), the
+  model of `impl Display for Lexer` (`LexDisplay.lexerDisplay`: a note-type `CodeDisplay` "Lexer"
+  with one span display built by `SpanDisplay::new` from `Span::enclosing(parse_start, cursor)`,
+  info-type highlights `token (…)`, `parse (…)`, `cursor (…), scanner: …` and, if a non-empty token
+  is buffered, `peek (…)`) is built and written without panic — `LexDisplay.renderLexer` is the
+  text compared with the implementation after every operation of every `lexops` history.  No
+  ordering of the stored positions is needed (`Span::enclosing` orders its arguments; the renderer
+  asks nothing of where a highlight lies), so none is assumed; `C01_lexer_display_total_any`:
+  any painter, colour on or off, and only the parse start and the cursor need be canonical.
+  `C01_reachable_lexer_display_total`: every lexer reachable from `Lexer::new` by any sequence of
+  public calls, metrics builders anywhere (`Lexer.ReachAll`), over a scanner that maps canonical
+  cuts of the text to canonical cuts (the hypothesis of `C03_lexer_isCanon`; no `ScanOK` needed)
+  formats without panic, by `C03_lexer_isCanon`; `C01_harness_lexer_display_total`: the harness
+  scanners satisfy that hypothesis, and their `Debug` text is `S<state>`.
 -/
 import TephraProps.C18
 import TephraProps.C19
@@ -64,6 +78,8 @@ import TephraProofs.LexInv
 import TephraProofs.Termination
 import TephraProofs.ReportTotal
 import TephraProofs.ScanClosed
+import TephraProofs.LexDisplayTotal
+import TephraProps.C03Lexer
 
 namespace Tephra.Props
 open Tephra
@@ -138,7 +154,7 @@ concrete scanner and text -/
 
 open BracketRefine.Witness in
 /-- the text `a,a;` (four one-byte characters) and the table scanner over its token kinds -/
-private def RW : RunEnv := ⟨tabEnv [0, 4, 0, 5], [⟨97, 1, 1⟩, ⟨44, 1, 1⟩, ⟨97, 1, 1⟩, ⟨59, 1, 1⟩]⟩
+private def RW : RunEnv := ⟨BracketRefine.Witness.tabEnv [0, 4, 0, 5], [⟨97, 1, 1⟩, ⟨44, 1, 1⟩, ⟨97, 1, 1⟩, ⟨59, 1, 1⟩]⟩
 
 /-- `text(list_bounded(1, 3, one(a), ',', [';']))` followed by a recovering bracket parser -/
 private def gW : G :=
@@ -156,7 +172,7 @@ private theorem gW_ids : Term.IdsFunctional (Term.recIds gW) := by
 open BracketRefine.Witness in
 private theorem RW_closed (m : Metrics) : Closed RW.E (fun p => (splitAtByte RW.text p.byte).isSome = true) m := by
   intro s p tok adv s' _ h
-  simp only [RW, tabEnv, scanTab] at h
+  simp only [RW, BracketRefine.Witness.tabEnv, scanTab] at h
   split at h
   · next k hk =>
     cases h
@@ -178,12 +194,12 @@ id with different predicates, the list's own `advance_to_recover` calls use the 
 (Not a defect of the Rust code, where every closure is its own object: ids are a modelling device.) -/
 
 open BracketRefine.Witness in
-example : (run ⟨tabEnv [2, 1, 3, 1, 5], []⟩ 9 (.both (.recover 1 7 .empty (.after 1)) (.list 1 7 0 none (.one 0) 4 [5]))
+example : (run ⟨BracketRefine.Witness.tabEnv [2, 1, 3, 1, 5], []⟩ 9 (.both (.recover 1 7 .empty (.after 1)) (.list 1 7 0 none (.one 0) 4 [5]))
     (Lexer.new 0 ⟨.lf, 4⟩ 5) ⟨true, [], false⟩ World.init).1 = .panic := by
   simp [run, Term.listLoop_succ, Term.listFinish, Term.listItem, Term.listDv, recoverDefault, stabValue, stabLoop,
     advanceToRecover, recoverLoop, askRecover, World.register, World.init, sendError, mkErr, Lexer.new, Lexer.peek,
     Lexer.next, Lexer.bufferNext, Lexer.bufferLoop, Lexer.filtered, Lexer.setRecoverState, Lexer.intoSublexer,
-    Lexer.startSublex, Lexer.isEmpty, tabEnv, scanTab, Pos.zero, Ctx.apply, Ctx.withoutSink, hiBelow, hiReached,
+    Lexer.startSublex, Lexer.isEmpty, BracketRefine.Witness.tabEnv, scanTab, Pos.zero, Ctx.apply, Ctx.withoutSink, hiBelow, hiReached,
     Lexer.parseSpan, Lexer.tokenSpan, Span.enclosing]
 
 /-! ### error reports -/
@@ -279,5 +295,63 @@ example : (run ⟨lexEnv (ScanCfg.ofId 0) repText, repText⟩ 1 (.one 1) (Lexer.
   simp [lexEnv, scanText, ScanCfg.ofId, repText, splitAtByte, kindOf, kWs, resOpt, Source.nextPosition,
     Source.withByteOffset, Tephra.nextPosition, stepSuf, csub, breakAt, lbCodes, stripCodes, stepCh,
     Source.sliceBytes, Lexer.filtered, Pos.zero, Lexer.parseSpan, Lexer.tokenSpan, Span.enclosing, mkErr]
+
+/-! ### the lexer's `Display` -/
+
+/-- **C01, lexer `Display` clause.**  Formatting a lexer whose stored positions are canonical
+positions of the source text never panics.  (The orderings parse start ≤ token start ≤ cursor ≤
+buffered token are true of every reachable lexer but are not needed.) -/
+theorem C01_lexer_display_total {σ τ : Type} (src : Source) (hoff : src.offset = Pos.zero)
+    (hwf : Text.WF src.text) (_htab : 1 ≤ src.metrics.tab)
+    (scannerDebug : String) (name : Option String) (lx : Lexer σ τ)
+    (hp : PosOK (fun p => Spec.isCanon src.metrics src.text p = true) lx) :
+    LexDisplay.renderLexer src scannerDebug lx name ≠ .panic := by
+  obtain ⟨s, hs⟩ := LexDisplayPf.renderLexer_ok_src src hoff hwf scannerDebug name lx hp
+  rw [hs]; simp
+
+/-- The same in two steps, for any painter and colour enablement; only the parse start and the
+cursor are looked at. -/
+theorem C01_lexer_display_total_any {σ τ : Type} (paint : Render.Style → String → String) (color : Bool)
+    (m : Metrics) (_htab : 1 ≤ m.tab) (t : Text) (hwf : Text.WF t)
+    (scannerDebug : String) (name : Option String) (lx : Lexer σ τ)
+    (hs : Spec.isCanon m t lx.parseStart = true) (hc : Spec.isCanon m t lx.cursor = true) :
+    ∃ cd, LexDisplay.lexerDisplay ⟨t, m, Pos.zero⟩ scannerDebug lx name = .ok cd ∧
+      Render.writeCodeDisplay paint ⟨t, m, Pos.zero⟩ { cd with colorEnabled := color } ≠ .panic := by
+  obtain ⟨cd, hcd, s, hs'⟩ := LexDisplayPf.lexerDisplay_ok paint color m t hwf scannerDebug name lx hs hc
+  exact ⟨cd, hcd, by rw [hs']; simp⟩
+
+/-- Every reachable lexer formats without panic: any sequence of `peek`, `next`, `next_if`,
+`set_filter`, `with_filter`, `start_sublex`, `into_sublexer`, `advance_to`, `advance_up_to`,
+`buffer_next`, `set_recover_state` and the three metrics builders after `Lexer::new`, over the
+whole of a well-formed text (`measure` is the real re-measurement) and a scanner that, at every
+metrics, maps a canonical cut of the text to a canonical cut (never stopping between a CR and an
+LF).  The source the lexer formats against carries the lexer's current metrics. -/
+theorem C01_reachable_lexer_display_total {σ τ : Type} (E : LexEnv σ τ) (t : Text) (hwf : Text.WF t)
+    (hE : E.measure = measureText t) (hc : ∀ m, Closed E (CanonCut t AlignedAll m) m)
+    (lx : Lexer σ τ) (hr : Lexer.ReachAll E lx) (_htab : 1 ≤ lx.metrics.tab)
+    (scannerDebug : String) (name : Option String) :
+    LexDisplay.renderLexer (LexDisplay.lexerSource t lx) scannerDebug lx name ≠ .panic :=
+  C01_lexer_display_total (LexDisplay.lexerSource t lx) rfl hwf _htab scannerDebug name lx
+    (C03_lexer_isCanon E t hwf hE hc lx hr).1
+
+/-- The harness scanners (every configuration) over any well-formed text: no scanner hypothesis;
+this is the text whose fingerprint every `lexops` state observation carries. -/
+theorem C01_harness_lexer_display_total (cfg : ScanCfg) (t : Text) (hwf : Text.WF t)
+    (lx : Lexer Nat Tok) (hr : Lexer.ReachAll (lexEnv cfg t) lx) (_htab : 1 ≤ lx.metrics.tab) :
+    LexDisplay.renderLexer (LexDisplay.lexerSource t lx) s!"S{lx.scanner}" lx ≠ .panic :=
+  C01_reachable_lexer_display_total (lexEnv cfg t) t hwf rfl (C03_harness_closed cfg t hwf) lx hr _htab _ _
+
+/-- Non-vacuity: the former F11 witness — `new(tab 4).with_filter(skip whitespace).with_tab_width(8)`
+on the text `⇥⇥a` — is reachable with a builder call after a scanning call, has tab width 8 and a
+buffered token (so all four highlights are attached, the last one beyond the cursor). -/
+example :
+    let lx := ((Lexer.new 1 ⟨.lf, 4⟩ 3 : Lexer Nat Tok).withFilter f11Env (some 1)).withTabWidth f11Env 8
+    Lexer.ReachAll f11Env lx ∧ 1 ≤ lx.metrics.tab ∧ lx.peekTokenSpan = some ⟨⟨2, 0, 16⟩, ⟨3, 0, 17⟩⟩ ∧
+    (LexDisplay.lexerHighlights s!"S{lx.scanner}" lx).length = 4 := by
+  have h := C03_former_F11_witness
+  refine ⟨h.1, ?_, h.2.2.2.2.2.1, ?_⟩
+  · simp [Lexer.withTabWidth, Lexer.remeasureAll]
+  · simp only [LexDisplay.lexerHighlights, h.2.2.2.2.2.1]
+    rfl
 
 end Tephra.Props
